@@ -1,0 +1,45 @@
+//go:build verif
+
+// Contracts for gvc (/verif). Comment-only: this file adds no declarations.
+
+package store
+
+// C24 (narrow): the history store keys commands by their sequence number in
+// 8-byte big-endian form. Proved for all 2^64 values: the codec is lossless,
+// and big-endian keys sort bytewise (bbolt's key order) exactly as the numbers
+// do, so cursor order is sequence order. The cursor loops of NextCmd/PrevCmd/
+// IterateCmds run over bbolt, which is outside the contracts.
+
+//@ func marshalSeq
+//@   props C24
+//@   ensures len(result) == 8 && fresh(result)
+//@   ensures forall k int :: 0 <= k && k < 8 ==> 0 <= result[k] && result[k] <= 255
+//   positional (base-256, most significant byte first) form of the big-endian encoding
+//@   ensures seq == result[0] * 72057594037927936 + result[1] * 281474976710656 + result[2] * 1099511627776 + result[3] * 4294967296 + result[4] * 16777216 + result[5] * 65536 + result[6] * 256 + result[7]
+
+//@ func unmarshalSeq
+//@   props C24
+//@   pure
+//@   requires len(key) >= 8
+//@   ensures result == key[0] * 72057594037927936 + key[1] * 281474976710656 + key[2] * 1099511627776 + key[3] * 4294967296 + key[4] * 16777216 + key[5] * 65536 + key[6] * 256 + key[7]
+
+//@ func verifSeqRoundTrip
+//@   props C24
+//@   ensures result == seq
+
+// byte k (0 = most significant) of a 64-bit value
+//@ spec fn byt(x uint64, k uint64) uint64 = (x >> (56 - 8 * k)) & 255
+// bytewise lexicographic "less than" on the 8-byte big-endian encodings
+//@ spec fn lexlt(a uint64, b uint64) bool = byt(a,0) < byt(b,0) || (byt(a,0) == byt(b,0) && (byt(a,1) < byt(b,1) || (byt(a,1) == byt(b,1) && (byt(a,2) < byt(b,2) || (byt(a,2) == byt(b,2) && (byt(a,3) < byt(b,3) || (byt(a,3) == byt(b,3) && (byt(a,4) < byt(b,4) || (byt(a,4) == byt(b,4) && (byt(a,5) < byt(b,5) || (byt(a,5) == byt(b,5) && (byt(a,6) < byt(b,6) || (byt(a,6) == byt(b,6) && byt(a,7) < byt(b,7))))))))))))))
+
+// the byte at position k of the positional form is byt(x, k)
+//@ lemma positional_form(x uint64)
+//@   props C24
+//@   mode bv
+//@   ensures x == (byt(x,0) << 56) + (byt(x,1) << 48) + (byt(x,2) << 40) + (byt(x,3) << 32) + (byt(x,4) << 24) + (byt(x,5) << 16) + (byt(x,6) << 8) + byt(x,7)
+
+//@ lemma big_endian_order(a uint64, b uint64)
+//@   props C24
+//@   mode bv
+//@   ensures (a < b) == lexlt(a, b)
+//@   ensures (a == b) == (byt(a,0) == byt(b,0) && byt(a,1) == byt(b,1) && byt(a,2) == byt(b,2) && byt(a,3) == byt(b,3) && byt(a,4) == byt(b,4) && byt(a,5) == byt(b,5) && byt(a,6) == byt(b,6) && byt(a,7) == byt(b,7))
